@@ -8,7 +8,7 @@ CONSTANTS
   NoIslands = FALSE
   InitVals <- Init_M1
   Kinds <- KindsC
-VIEW ViewNoEv
+VIEW ViewRet
 INVARIANT TypeOK
 INVARIANT CyclesClosed
 INVARIANT NoMixedCoupling
